@@ -1673,6 +1673,59 @@ static void op_codec(json_t *op, json_t *ev)
 	}
 }
 
+/* Batched codec calls over an enumerated domain (C11):
+ *  {"op":"CodecBatch","dir":"enc","len":3,"prefix":[17]}            all byte strings of that length with that prefix
+ *  {"op":"CodecBatch","dir":"dec","len":4,"alpha":[..],"prefix":[]}  all strings of that length over alpha
+ * The inputs are not logged (the trace spec regenerates them from the
+ * descriptor and checks the count); outputs are logged in order. */
+static void op_codec_batch(json_t *op, json_t *ev)
+{
+	const char *dir = jstr(op, "dir", "enc");
+	int isenc = !strcmp(dir, "enc");
+	size_t len = (size_t)jint(op, "len", 3), npre, nalpha = 256, rem, total = 1;
+	unsigned char *pre = list_bytes(json_object_get(op, "prefix"), &npre), *alpha = NULL;
+	json_t *outs = json_array(), *rets = json_array(), *nulls = json_array();
+	if (!isenc) alpha = list_bytes(json_object_get(op, "alpha"), &nalpha);
+	if (npre > len) die("prefix too long");
+	rem = len - npre;
+	for (size_t k = 0; k < rem; k++) total *= nalpha;
+	if (total > 300000) die("batch too large");
+	for (size_t i = 0; i < total; i++) {
+		unsigned char *in = malloc(len + 1);	/* exact size: ASan sees over-reads */
+		size_t x = i;
+		memcpy(in, pre, npre);
+		for (size_t k = 0; k < rem; k++) {
+			size_t d = x % nalpha; x /= nalpha;
+			in[len - 1 - k] = isenc ? (unsigned char)d : alpha[d];
+		}
+		in[len] = 0;
+		if (isenc) {
+			char *out = NULL;
+			char *exact = malloc(len ? len : 1);
+			int r;
+			memcpy(exact, in, len);
+			r = jwt_base64uri_encode(&out, exact, (int)len);
+			json_array_append_new(rets, json_integer(r));
+			json_array_append_new(nulls, json_integer(out ? 0 : 1));
+			json_array_append_new(outs, out ? bytes_list((unsigned char *)out, strlen(out)) : json_array());
+			if (out) lib_free(out);
+			free(exact);
+		} else {
+			int l = -7;
+			unsigned char *out = jwt_base64uri_decode((char *)in, &l);
+			json_array_append_new(rets, json_integer(l));
+			json_array_append_new(nulls, json_integer(out ? 0 : 1));
+			json_array_append_new(outs, out && l > 0 ? bytes_list(out, (size_t)l) : json_array());
+			if (out) lib_free(out);
+		}
+		free(in);
+	}
+	json_object_set_new(ev, "outs", outs);
+	json_object_set_new(ev, "rets", rets);
+	json_object_set_new(ev, "nulls", nulls);
+	free(pre); free(alpha);
+}
+
 /* ================================================================ ops */
 static void free_all_objects(void)
 {
@@ -1979,6 +2032,8 @@ static void run_op(json_t *op)
 		json_object_set_new(ev, "cur", json_string(startup_ops));
 	} else if (!strcmp(name, "Codec")) {
 		op_codec(op, ev);
+	} else if (!strcmp(name, "CodecBatch")) {
+		op_codec_batch(op, ev);
 	} else if (!strcmp(name, "AlgStr")) {
 		/* jwt_str_alg / jwt_alg_str round trip */
 		const char *s = jstr(op, "s", "~");
